@@ -92,6 +92,7 @@ def handleEnc (toks : List String) : Option String := do
     | .error (.writer _) => pure "err"
     | .error (.panic _) => pure "panic"
     | .error (.unsupported pos) => pure s!"unsupported {pos}"
+    | .error .badHex => pure "err"
   | _ => none
 
 def handleDec (toks : List String) : Option String := do
